@@ -866,7 +866,10 @@ func (pr *printer) raw(t *Term) string {
 		if pr.real {
 			return "(to_real " + pr.expr(t.Args[0]) + ")"
 		}
-		return "((_ to_fp 11 53) RNE (to_real " + pr.expr(t.Args[0]) + "))"
+		if n, ok := t.Args[0].IsInt(); ok && n > -(1<<52) && n < (1<<52) {
+			return pr.raw(F64T(float64(n)))
+		}
+		return "(i2f " + pr.expr(t.Args[0]) + ")"
 	case "f2i":
 		return "(f2i " + pr.expr(t.Args[0]) + ")"
 	case "fp.add", "fp.sub", "fp.mul", "fp.div", "fp.sqrt":
@@ -968,6 +971,7 @@ func Script(asserts []*Term, getValues []*Term, real bool) string {
 	}
 	usedDecl := map[string]bool{}
 	usesStr, usesQuo, usesF2I := false, false, false
+	usesI2F := false
 	for _, t := range order {
 		switch t.Op {
 		case "const", "uf":
@@ -979,6 +983,8 @@ func Script(asserts []*Term, getValues []*Term, real bool) string {
 			usesQuo = true
 		case "f2i":
 			usesF2I = true
+		case "i2f":
+			usesI2F = true
 		}
 		if t.Sort == SStr || strings.Contains(t.Sort, "Str") {
 			usesStr = true
@@ -1000,6 +1006,10 @@ func Script(asserts []*Term, getValues []*Term, real bool) string {
 		} else {
 			sb.WriteString("(declare-fun f2i ((_ FloatingPoint 11 53)) Int)\n")
 		}
+	}
+	if usesI2F && !real {
+		// int -> float64 conversion is uninterpreted (deterministic, otherwise unconstrained)
+		sb.WriteString("(declare-fun i2f (Int) (_ FloatingPoint 11 53))\n")
 	}
 	if real {
 		sb.WriteString("(declare-fun real!nan () Real)\n(declare-fun real!pinf () Real)\n(declare-fun real!ninf () Real)\n(declare-fun realsqrt (Real) Real)\n")
